@@ -232,6 +232,21 @@ func (matrix *DenseInt64Matrix) Tip() {
     matrix.rowMax, matrix.colMax = matrix.colMax, matrix.rowMax
     return
   }
+  if matrix.rows != matrix.rowMax || matrix.cols != matrix.colMax {
+    // slice of a larger matrix: the cycle-following algorithm below permutes
+    // the whole storage; within a window the elements can only be rearranged
+    // if it is square
+    if matrix.rows != matrix.cols {
+      panic("Tip(): a non-square slice cannot be transposed in place")
+    }
+    for i := 0; i < matrix.rows; i++ {
+      for j := i+1; j < matrix.cols; j++ {
+        k1, k2 := matrix.index(i, j), matrix.index(j, i)
+        matrix.values[k1], matrix.values[k2] = matrix.values[k2], matrix.values[k1]
+      }
+    }
+    return
+  }
   mn := len(matrix.values)
   visited := make([]bool, mn)
   k := 0
